@@ -7,6 +7,10 @@ type nat =
 | O
 | S of nat
 
+type ('a, 'b) sum =
+| Inl of 'a
+| Inr of 'b
+
 val fst : ('a1 * 'a2) -> 'a1
 
 val snd : ('a1 * 'a2) -> 'a2
@@ -51,6 +55,8 @@ module Little :
  end
 
 val add : nat -> nat -> nat
+
+val mul : nat -> nat -> nat
 
 val sub : nat -> nat -> nat
 
@@ -149,6 +155,8 @@ module N :
 
   val mul : n -> n -> n
 
+  val to_nat : n -> nat
+
   val of_nat : nat -> n
  end
 
@@ -167,6 +175,8 @@ val ascii_of_nat : nat -> char
 val n_of_digits : bool list -> n
 
 val n_of_ascii : char -> n
+
+val nat_of_ascii : char -> nat
 
 val hd : 'a1 -> 'a1 list -> 'a1
 
@@ -480,6 +490,9 @@ type t = __
 
 val rnd_of : bool -> rnd
 
+type arith_meta = { aname : string; ainfo : string;
+                    areport : (string -> string -> string) }
+
 val nev : arith -> t -> t -> bool
 
 val fixed_display : z -> z -> z
@@ -488,13 +501,27 @@ val mk_fixed_cls : z -> z -> fixed_cls
 
 val fixed_str : fixed_cls -> z -> string
 
+val fixed_info : z -> z -> string
+
 val fixed : z -> z -> arith
+
+val fixedMeta : z -> z -> arith_meta
 
 val mk_guarded_cls : z -> z -> z -> z -> guarded_cls
 
 val guarded_str : guarded_cls -> z -> string
 
+val guarded_info : z -> z -> z -> string
+
+val tab : string
+
+val nl : string
+
+val guarded_report : guarded_cls -> string -> string -> string
+
 val guarded : z -> z -> z -> z -> arith
+
+val guardedMeta : z -> z -> z -> z -> arith_meta
 
 val qz : q -> bool
 
@@ -511,6 +538,8 @@ val rational_fmt : z -> q -> fmt_args
 val rational_str : z -> q -> string
 
 val rational : z -> arith
+
+val rationalMeta : arith_meta
 
 val run_asc : ('a1 -> 'a1 -> bool) -> 'a1 -> 'a1 list -> nat
 
@@ -1289,7 +1318,7 @@ val strip_bom : ustr -> ustr
 
 val parse_file : ustr -> profile0 res
 
-val nl : string
+val nl0 : string
 
 val show_zs : z list -> string
 
@@ -1306,6 +1335,236 @@ val show_parse : profile0 res -> string
 val toks_zs : tok list -> z list
 
 val run_parse : tok list -> string
+
+val rd_int : tok list -> (z * tok list) option
+
+val rd_str : tok list -> (string * tok list) option
+
+val rd_ints : nat -> tok list -> (z list * tok list) option
+
+val rd_cand : tok list -> (pcand * tok list) option
+
+val rd_many :
+  (tok list -> ('a1 * tok list) option) -> nat -> tok list -> ('a1 list * tok
+  list) option
+
+val rd_ballot : tok list -> ((z * z list) * tok list) option
+
+val rd_rank : tok list -> (z list * tok list) option
+
+val rd_eballot : tok list -> ((z * z list list) * tok list) option
+
+val tag_name : tag -> string
+
+val state_name : cstate -> string
+
+val is_wigm : meth -> bool
+
+val code_of : meth -> cstate -> bool option -> string
+
+val lf : string
+
+val rule_of : z -> rule
+
+val meth_of : rule -> meth
+
+type count_case = { cc_rule : rule; cc_cfg : config; cc_fuel : positive;
+                    cc_profile : profile; cc_ar : z; cc_p : z; cc_g : 
+                    z; cc_d : z; cc_stale : z }
+
+val parse_count_case : tok list -> (string, count_case) sum
+
+type json =
+| JNull
+| JBool of bool
+| JInt of z
+| JStr of string
+| JList of json list
+| JObj of (string * json) list
+
+type header = { h_title : string; h_droop_name : string;
+                h_droop_version : string; h_rule_info : string;
+                h_arith_info : string; h_unused : string list;
+                h_overridden : string list; h_quota_name : string;
+                h_omega : string option; h_source : string option;
+                h_comment : string option; h_maxdiff : string;
+                h_mindiff : string; h_options : json }
+
+val z_of_ascii : char -> z
+
+val ascii_of_Z : z -> char
+
+val str1 : z -> string
+
+val utf8_decode : z list -> z list
+
+val hexdigit : z -> string
+
+val hex4 : z -> string
+
+val bslash : string
+
+val dquote : string
+
+val esc_cp : z -> string
+
+val json_string : string -> string
+
+val spaces : nat -> string
+
+val nlind : nat -> string
+
+val json_pieces : nat -> json -> string list
+
+val json_text_of : json -> string
+
+val is_short_tag : tag -> bool
+
+val is_fill_tag : tag -> bool
+
+val is_end_tag : tag -> bool
+
+val lists_cands : tag -> bool
+
+val qpq_own : tag -> bool
+
+val is_tie : tag -> bool
+
+val pend_true : bool option -> bool
+
+val sv : arith -> t -> string
+
+val sov : arith -> t option -> string
+
+val lookup_sn : arith -> csnap list -> z -> csnap option
+
+val name_of : arith -> cand list -> z -> string
+
+val all_cids : arith -> est -> z list
+
+val elig_cids : arith -> est -> z list
+
+val record_actions : arith -> est -> action list
+
+val fill_quota : arith -> est -> t
+
+val arith_report : arith -> arith_meta -> header -> est -> string option
+
+val dump_rule_header : config -> string list
+
+val dump_cid_header : config -> z -> string list
+
+val dump_header : config -> z list -> string list
+
+val dump_rule_cells : arith -> config -> asnap -> string list
+
+val dump_value_cells : arith -> config -> csnap -> string list
+
+val dump_missing_cells : config -> string list
+
+val dump_cand_cells :
+  arith -> config -> cand list -> asnap -> z -> string list
+
+val dump_short_row : arith -> action -> string list
+
+val dump_row : arith -> config -> cand list -> z list -> action -> string list
+
+val dump_table : arith -> config -> est -> string list list
+
+val dump_line : string list -> string
+
+val dump_text : arith -> config -> est -> string
+
+val ordered_snaps : arith -> z list -> asnap -> csnap list
+
+val sn_in : arith -> cstate -> csnap -> bool
+
+val cand_line :
+  arith -> cand list -> string -> (csnap -> string) -> csnap -> string
+
+val vote_str : arith -> csnap -> string
+
+val quo_str : arith -> csnap -> string
+
+val elected_np : arith -> csnap list -> csnap list
+
+val elected_p : arith -> csnap list -> csnap list
+
+val hopeful_sn : arith -> csnap list -> csnap list
+
+val defeated_sn : arith -> csnap list -> csnap list
+
+val defeated_pos : arith -> csnap list -> csnap list
+
+val defeated_zero : arith -> csnap list -> csnap list
+
+val zero_defeated_line : arith -> cand list -> csnap list -> string
+
+val default_cand_lines : arith -> cand list -> csnap list -> string list
+
+val wigm_append : arith -> config -> t -> string -> csnap list -> string list
+
+val meek_append : arith -> header -> asnap -> string list
+
+val action_append :
+  arith -> config -> header -> asnap -> csnap list -> string list
+
+val qpq_cand_lines : arith -> cand list -> csnap list -> string list
+
+val qpq_section : config -> tag -> bool
+
+val block_cand_lines :
+  arith -> config -> cand list -> z list -> action -> asnap -> string list
+
+val report_action :
+  arith -> config -> header -> cand list -> z list -> action -> string list
+
+val opt_line : string -> string option -> string -> string list
+
+val report_header : arith -> config -> header -> est -> string list
+
+val report_pieces :
+  arith -> arith_meta -> config -> header -> bool -> est -> string list
+
+val report_text :
+  arith -> arith_meta -> config -> header -> bool -> est -> string
+
+val jov : arith -> string -> t option -> (string * json) list
+
+val json_cstate_entry : arith -> config -> csnap -> json
+
+val json_cstate : arith -> config -> csnap list -> json
+
+val json_action : arith -> config -> action -> json
+
+val json_cdict_entry : arith -> cand -> json
+
+val jos : string -> string option -> (string * json) list
+
+val method_name : config -> string
+
+val json_tree : arith -> arith_meta -> config -> header -> est -> json
+
+val json_text : arith -> arith_meta -> config -> header -> est -> string
+
+val rd_strs : nat -> tok list -> (string list * tok list) option
+
+val rd_json : nat -> tok list -> (json * tok list) option
+
+val rd_opt_str : tok list -> (string option * tok list) option
+
+val rd_header : tok list -> ((bool * header) * tok list) option
+
+val mark_report : string
+
+val mark_dump : string
+
+val mark_json : string
+
+val show_render :
+  arith -> arith_meta -> config -> header -> bool -> outcome -> string
+
+val run_render : tok list -> string
 
 val show_resZ : z res -> string
 
@@ -1335,32 +1594,6 @@ val run_rational : z -> z -> z -> z -> z -> z -> z -> z -> z -> string
 
 val run_values : z list -> string
 
-val rd_int : tok list -> (z * tok list) option
-
-val rd_ints : nat -> tok list -> (z list * tok list) option
-
-val rd_cand : tok list -> (pcand * tok list) option
-
-val rd_many :
-  (tok list -> ('a1 * tok list) option) -> nat -> tok list -> ('a1 list * tok
-  list) option
-
-val rd_ballot : tok list -> ((z * z list) * tok list) option
-
-val rd_rank : tok list -> (z list * tok list) option
-
-val rd_eballot : tok list -> ((z * z list list) * tok list) option
-
-val tag_name : tag -> string
-
-val state_name : cstate -> string
-
-val is_wigm : meth -> bool
-
-val code_of : meth -> cstate -> bool option -> string
-
-val lf : string
-
 val showv : arith -> t -> string
 
 val showov : arith -> t option -> string
@@ -1376,10 +1609,6 @@ val show_action : arith -> meth -> action -> string
 val show_cids : arith -> cand list -> string
 
 val show_outcome : arith -> meth -> outcome -> string
-
-val rule_of : z -> rule
-
-val meth_of : rule -> meth
 
 val run_count_case : tok list -> string
 
